@@ -284,22 +284,25 @@ func (g *G) run(k *Kernel) {
 	g.goid = goid()
 	g.park(k)
 	raceAcquire(&g.token)
-	defer func() {
-		r := recover()
-		if k.killed {
-			g.state = gExited
-			return
-		}
-		if r != nil {
-			g.Panic = r
-			buf := make([]byte, 16384)
-			n := runtime.Stack(buf, false)
-			g.Stack = string(buf[:n])
-		}
-		g.state = gExited
-		raceRelease(&kernelSync)
-	}()
+	defer g.finish(k)
 	g.fn()
+}
+
+//go:norace
+func (g *G) finish(k *Kernel) {
+	r := recover()
+	if k.killed {
+		g.state = gExited
+		return
+	}
+	if r != nil {
+		g.Panic = r
+		buf := make([]byte, 16384)
+		n := runtime.Stack(buf, false)
+		g.Stack = string(buf[:n])
+	}
+	g.state = gExited
+	raceRelease(&kernelSync)
 }
 
 // park blocks until the kernel hands the baton to g. Invisible to the race
